@@ -338,3 +338,215 @@ theorem evalPy_sound (tbl : List (Name × Dunder)) (htbl : TableOK tbl) :
     · simp only [Val.len, Iter.len, Py.len, ls, lo]
 
 end ALV.C01
+
+/-! ### the converse: ill-typed expressions are refused -/
+
+namespace ALV.C01
+
+/-- nothing but specified dunders is installed -/
+def TableComplete (tbl : List (Name × Dunder)) : Prop :=
+  ∀ d dd, tbl.lookup d = some dd → (specLookup d).map DunderSpec.dunder = some dd
+
+theorem asStream_error {v : Val} (h : v.sort ≠ .stream) : asStream v = .error .notAStream := by
+  cases v with
+  | scalar c => rfl
+  | ignored c => rfl
+  | iterable b it => cases b <;> simp [Val.sort] at h ⊢ <;> rfl
+
+theorem streamInit2_error {va vb : Val} (h : va.sort.isIterable ≠ vb.sort.isIterable) :
+    streamInit2 va vb = .error .typeError := by
+  cases va with
+  | scalar c =>
+    cases vb with
+    | scalar c' => simp [Val.sort, Sort'.isIterable] at h
+    | ignored c' => simp [Val.sort, Sort'.isIterable] at h
+    | iterable b it => rfl
+  | ignored c =>
+    cases vb with
+    | scalar c' => simp [Val.sort, Sort'.isIterable] at h
+    | ignored c' => simp [Val.sort, Sort'.isIterable] at h
+    | iterable b it => rfl
+  | iterable b it =>
+    cases vb with
+    | scalar c' => rfl
+    | ignored c' => rfl
+    | iterable b' it' => cases b <;> cases b' <;> simp [Val.sort, Sort'.isIterable] at h
+
+theorem lookup_mem {d : Name} {dd : Dunder} : ∀ (l : List (Name × Dunder)), l.lookup d = some dd → (d, dd) ∈ l := by
+  intro l
+  induction l with
+  | nil => intro h; simp [List.lookup] at h
+  | cons kv r ih =>
+    intro h
+    obtain ⟨k, w⟩ := kv
+    simp only [List.lookup] at h
+    split at h
+    · rename_i heq
+      have : d = k := by simpa using heq
+      subst this
+      have : w = dd := by simpa using h
+      subst this
+      exact List.mem_cons_self
+    · exact List.mem_cons_of_mem _ (ih h)
+
+theorem lookup_none_of_spec_none {tbl : List (Name × Dunder)} (hc : TableComplete tbl) {d : Name}
+    (h : specLookup d = none) : tbl.lookup d = none := by
+  cases hl : tbl.lookup d with
+  | none => rfl
+  | some dd => have := hc d dd hl; simp [h] at this
+
+/-- every expression the specification calls ill-typed is refused by the model -/
+theorem evalPy_refuses (tbl : List (Name × Dunder)) (htbl : TableOK tbl) (hc : TableComplete tbl)
+    (har : ∀ sp ∈ specTable, sp.arity = 1 ∨ sp.arity = 2) :
+    ∀ (p : Py), p.sort = none → ∃ e, evalPy tbl p = .error e := by
+  intro p
+  induction p with
+  | scalar c => intro h; simp [Py.sort] at h
+  | ignored c => intro h; simp [Py.sort] at h
+  | iterable t xs => intro h; simp [Py.sort] at h
+  | stream1 a iha =>
+    intro h
+    have ha : a.sort = none := by
+      cases hs : a.sort with
+      | none => rfl
+      | some x => simp [Py.sort, hs] at h
+    obtain ⟨e, he⟩ := iha ha
+    exact ⟨e, by simp [evalPy, he, bind, Except.bind]⟩
+  | stream2 a b iha ihb =>
+    intro h
+    cases hsa : a.sort with
+    | none =>
+      obtain ⟨e, he⟩ := iha hsa
+      exact ⟨e, by simp [evalPy, he, bind, Except.bind]⟩
+    | some x =>
+      obtain ⟨va, hva, hma⟩ := evalPy_sound tbl htbl a x hsa
+      cases hsb : b.sort with
+      | none =>
+        obtain ⟨e, he⟩ := ihb hsb
+        exact ⟨e, by simp [evalPy, hva, he, bind, Except.bind]⟩
+      | some y =>
+        obtain ⟨vb, hvb, hmb⟩ := evalPy_sound tbl htbl b y hsb
+        have hne : x.isIterable ≠ y.isIterable := by
+          intro heq
+          simp [Py.sort, hsa, hsb, heq] at h
+        refine ⟨.typeError, ?_⟩
+        have := streamInit2_error (va := va) (vb := vb) (by rw [hma.sort, hmb.sort]; exact hne)
+        simp [evalPy, hva, hvb, bind, Except.bind, this]
+  | un d s ihs =>
+    intro h
+    cases hss : s.sort with
+    | none =>
+      obtain ⟨e, he⟩ := ihs hss
+      exact ⟨e, by simp [evalPy, he, bind, Except.bind]⟩
+    | some so =>
+      obtain ⟨vs, hvs, hms⟩ := evalPy_sound tbl htbl s so hss
+      by_cases hso : so = .stream
+      · subst hso
+        obtain ⟨its, rfl⟩ := Val.of_sort_stream hms.sort
+        cases hl : specLookup d with
+        | none =>
+          have := lookup_none_of_spec_none hc hl
+          exact ⟨.attributeError, by simp [evalPy, hvs, bind, Except.bind, asStream, callDunder, this]⟩
+        | some sp =>
+          obtain ⟨hmem, hdn⟩ := specLookup_some hl
+          have hlook := htbl sp hmem
+          rw [hdn] at hlook
+          have hne : sp.arity ≠ 1 := by
+            intro h1
+            simp [Py.sort, hss, hl, h1] at h
+          have hb : sp.dunder.builder ≠ .unary := by
+            simp only [DunderSpec.dunder, DunderSpec.builder]
+            have : (sp.arity == 1) = false := by simpa using hne
+            rw [this]
+            cases sp.reflected <;> simp
+          refine ⟨.typeError, ?_⟩
+          simp only [evalPy, hvs, bind, Except.bind, asStream, callDunder, hlook]
+          cases hbb : sp.dunder.builder with
+          | unary => exact absurd hbb hb
+          | binary => rfl
+          | rbinary => rfl
+      · have := asStream_error (v := vs) (by rw [hms.sort]; exact hso)
+        exact ⟨.notAStream, by simp [evalPy, hvs, bind, Except.bind, this]⟩
+  | bin d s o ihs iho =>
+    intro h
+    cases hss : s.sort with
+    | none =>
+      obtain ⟨e, he⟩ := ihs hss
+      exact ⟨e, by simp [evalPy, he, bind, Except.bind]⟩
+    | some so =>
+      obtain ⟨vs, hvs, hms⟩ := evalPy_sound tbl htbl s so hss
+      cases hso' : o.sort with
+      | none =>
+        obtain ⟨e, he⟩ := iho hso'
+        exact ⟨e, by simp [evalPy, hvs, he, bind, Except.bind]⟩
+      | some so' =>
+        obtain ⟨vo, hvo, hmo⟩ := evalPy_sound tbl htbl o so' hso'
+        by_cases hso : so = .stream
+        · subst hso
+          obtain ⟨its, rfl⟩ := Val.of_sort_stream hms.sort
+          cases hl : specLookup d with
+          | none =>
+            have := lookup_none_of_spec_none hc hl
+            exact ⟨.attributeError, by simp [evalPy, hvs, hvo, bind, Except.bind, asStream, callDunder, this]⟩
+          | some sp =>
+            obtain ⟨hmem, hdn⟩ := specLookup_some hl
+            have hlook := htbl sp hmem
+            rw [hdn] at hlook
+            rcases har sp hmem with h1 | h2
+            · -- a unary operator method called with an operand
+              have hb : sp.dunder.builder = .unary := by simp [DunderSpec.dunder, DunderSpec.builder, h1]
+              exact ⟨.typeError, by simp [evalPy, hvs, hvo, bind, Except.bind, asStream, callDunder, hlook, hb]⟩
+            · -- the operand is an instance of an ignored class
+              have hig : so' = .ignored := by
+                apply Classical.byContradiction
+                intro hni
+                simp [Py.sort, hss, hl, hso', h2, hni] at h
+              subst hig
+              have hvi : ∃ c, vo = .ignored c := by
+                cases vo with
+                | scalar c => have := hmo.sort; simp [Val.sort] at this
+                | ignored c => exact ⟨c, rfl⟩
+                | iterable b it => have := hmo.sort; cases b <;> simp [Val.sort] at this
+              obtain ⟨c, rfl⟩ := hvi
+              refine ⟨.notImplemented, ?_⟩
+              simp only [evalPy, hvs, hvo, bind, Except.bind, asStream, callDunder, hlook]
+              cases hbb : sp.dunder.builder with
+              | unary =>
+                simp [DunderSpec.dunder, DunderSpec.builder, h2] at hbb
+                cases hr : sp.reflected <;> simp [hr] at hbb
+              | binary => rfl
+              | rbinary => rfl
+        · have := asStream_error (v := vs) (by rw [hms.sort]; exact hso)
+          exact ⟨.notAStream, by simp [evalPy, hvs, hvo, bind, Except.bind, this]⟩
+  | meth l s ihs =>
+    intro h
+    cases hss : s.sort with
+    | none =>
+      obtain ⟨e, he⟩ := ihs hss
+      exact ⟨e, by simp [evalPy, he, bind, Except.bind]⟩
+    | some so =>
+      obtain ⟨vs, hvs, hms⟩ := evalPy_sound tbl htbl s so hss
+      have hso : so ≠ .stream := by
+        intro heq; subst heq; simp [Py.sort, hss] at h
+      have := asStream_error (v := vs) (by rw [hms.sort]; exact hso)
+      exact ⟨.notAStream, by simp [evalPy, hvs, bind, Except.bind, this]⟩
+  | append s o ihs iho =>
+    intro h
+    cases hss : s.sort with
+    | none =>
+      obtain ⟨e, he⟩ := ihs hss
+      exact ⟨e, by simp [evalPy, he, bind, Except.bind]⟩
+    | some so =>
+      obtain ⟨vs, hvs, hms⟩ := evalPy_sound tbl htbl s so hss
+      cases hso' : o.sort with
+      | none =>
+        obtain ⟨e, he⟩ := iho hso'
+        exact ⟨e, by simp [evalPy, hvs, he, bind, Except.bind]⟩
+      | some so' =>
+        obtain ⟨vo, hvo, hmo⟩ := evalPy_sound tbl htbl o so' hso'
+        have hso : so ≠ .stream := by
+          intro heq; subst heq; simp [Py.sort, hss, hso'] at h
+        have := asStream_error (v := vs) (by rw [hms.sort]; exact hso)
+        exact ⟨.notAStream, by simp [evalPy, hvs, hvo, bind, Except.bind, this]⟩
+
+end ALV.C01
